@@ -17,13 +17,18 @@ PLUS == 0  STAR == -1  OPT == -2
 \* blank-node relabelling: the schemas never mention node identifiers, so no renaming of the schema is needed
 GraphRelated(how) == how = "perm" => (ToSet(da) = ToSet(db) /\ Len(da) = Len(db))
 Same(P, how, OA, OB) ==
-  (IF ~GraphRelated(how) THEN {"MACHINERY.graphs"} ELSE {}) \cup
-  (IF A!Heads(OA) # B!Heads(OB) THEN {P \o ".shapes"} ELSE {}) \cup
-  (IF A!KeysIn(OA) # B!KeysIn(OB) THEN {P \o ".keys"} ELSE {}) \cup
-  (IF A!OutsideTies(A!Facts(OA)) # A!OutsideTies(B!Facts(OB)) THEN {P \o ".facts"} ELSE {}) \cup
-  (IF A!OutsideTies(A!Facts(OA)) = A!OutsideTies(B!Facts(OB)) /\ A!Facts(OA) # B!Facts(OB) THEN {"KF." \o P \o ".tieorder"} ELSE {}) \cup
-  (IF {x \in A!ConsOf(OA) : <<x[1], x[2], x[3]>> \notin A!TieGroups} # {x \in B!ConsOf(OB) : <<x[1], x[2], x[3]>> \notin A!TieGroups}
-   THEN {P \o ".constraints"} ELSE {})
+  LET tg == A!TieGroups           \* computed once (the runs are on the same graph and configuration)
+      fa == A!Facts(OA)
+      fb == B!Facts(OB)
+      oa == A!OutsideTiesOf(fa, tg)
+      ob == A!OutsideTiesOf(fb, tg)
+  IN (IF ~GraphRelated(how) THEN {"MACHINERY.graphs"} ELSE {}) \cup
+     (IF A!Heads(OA) # B!Heads(OB) THEN {P \o ".shapes"} ELSE {}) \cup
+     (IF A!KeysIn(OA) # B!KeysIn(OB) THEN {P \o ".keys"} ELSE {}) \cup
+     (IF oa # ob THEN {P \o ".facts"} ELSE {}) \cup
+     (IF oa = ob /\ fa # fb THEN {"KF." \o P \o ".tieorder"} ELSE {}) \cup
+     (IF {x \in A!ConsOf(OA) : <<x[1], x[2], x[3]>> \notin tg} # {x \in B!ConsOf(OB) : <<x[1], x[2], x[3]>> \notin tg}
+      THEN {P \o ".constraints"} ELSE {})
 
 \* ---- thr (C12)
 FactKey(f) == <<f[1], f[2], f[3], f[4], f[5]>>
@@ -64,14 +69,25 @@ Reversed == {IF t[2] # ca.instProp /\ t[3][1] \in {"IRI", "BNode"} THEN <<t[3], 
 Dir(obs, inv) == {[s EXCEPT !.tcs = {tc \in s.tcs : tc.inv = inv}] : s \in obs}
 NonLit(obs) == {[s EXCEPT !.tcs = {tc \in s.tcs : tc.p # ca.instProp /\ (tc.ks # {} \/ A!VC(tc.p, tc.k) = "nonliteral")}] : s \in obs}
 Flip(obs) == {[s EXCEPT !.tcs = {[tc EXCEPT !.inv = ~tc.inv] : tc \in s.tcs}] : s \in obs}
-NoTies(X) == {x \in X : <<x[1], x[2], x[3]>> \notin A!TieGroups /\ <<x[1], ~x[2], x[3]>> \notin CR!TieGroups}
+NoTiesOf(X, ta, tc) == {x \in X : <<x[1], x[2], x[3]>> \notin ta /\ <<x[1], ~x[2], x[3]>> \notin tc}
 InverseRel(OA, OB, OC) ==
-  (IF ToSet(dc) # Reversed THEN {"MACHINERY.reverse"} ELSE {}) \cup
-  (IF A!Heads(OA) # B!Heads(OB) THEN {"C14.counts"} ELSE {}) \cup
-  (IF A!ConsOf(Dir(OA, FALSE)) # B!ConsOf(OB) THEN {"C14.direct"} ELSE {}) \cup
-  (IF A!Facts(Dir(OA, FALSE)) # B!Facts(OB) THEN {"C14.directfacts"} ELSE {}) \cup
-  (IF A!KeysIn(NonLit(Dir(OA, TRUE))) # A!KeysIn(Flip(NonLit(Dir(OC, FALSE)))) THEN {"C14.inversekeys"} ELSE {}) \cup
-  (IF NoTies(A!ConsOf(NonLit(Dir(OA, TRUE)))) # NoTies(A!ConsOf(Flip(NonLit(Dir(OC, FALSE))))) THEN {"C14.inverse"} ELSE {}) \cup
-  (IF NoTies(A!Facts(NonLit(Dir(OA, TRUE)))) # NoTies(A!Facts(Flip(NonLit(Dir(OC, FALSE))))) THEN {"C14.inversefacts"} ELSE {})
+  LET ta == A!TieGroups
+      tc == CR!TieGroups
+      NoTies(X) == NoTiesOf(X, ta, tc)
+  IN (IF ToSet(dc) # Reversed THEN {"MACHINERY.reverse"} ELSE {}) \cup
+     (IF A!Heads(OA) # B!Heads(OB) THEN {"C14.counts"} ELSE {}) \cup
+     (IF A!ConsOf(Dir(OA, FALSE)) # B!ConsOf(OB) THEN {"C14.direct"} ELSE {}) \cup
+     (IF A!Facts(Dir(OA, FALSE)) # B!Facts(OB) THEN {"C14.directfacts"} ELSE {}) \cup
+     (IF A!KeysIn(NonLit(Dir(OA, TRUE))) # A!KeysIn(Flip(NonLit(Dir(OC, FALSE)))) THEN {"C14.inversekeys"} ELSE {}) \cup
+     (IF NoTies(A!ConsOf(NonLit(Dir(OA, TRUE)))) # NoTies(A!ConsOf(Flip(NonLit(Dir(OC, FALSE))))) THEN {"C14.inverse"} ELSE {}) \cup
+     (IF NoTies(A!Facts(NonLit(Dir(OA, TRUE)))) # NoTies(A!Facts(Flip(NonLit(Dir(OC, FALSE))))) THEN {"C14.inversefacts"} ELSE {})
 
+\* ---- delivery (C08): what a channel delivered to each pass (hook pass.triple) is the document as a bag.
+\* A read event is <<subject kind, subject, predicate, object kind / datatype, object>>; literals are compared on their datatype.
+BagOf(q) == [x \in ToSet(q) |-> Cardinality({i \in 1..Len(q) : q[i] = x})]
+NormDoc(d) == [i \in 1..Len(d) |-> <<d[i][1][1], d[i][1][2], d[i][2], d[i][3][1], IF d[i][3][1] \in {"IRI", "BNode"} THEN d[i][3][2] ELSE "">>]
+NormRead(q) == [i \in 1..Len(q) |-> <<q[i][1], q[i][2], q[i][3], q[i][4], IF q[i][4] \in {"IRI", "BNode"} THEN q[i][5] ELSE "">>]
+DeliveryClauses(read1, read2) ==
+  (IF BagOf(NormRead(read1)) # BagOf(NormDoc(da)) THEN {"C08.bag.pass1"} ELSE {}) \cup
+  (IF BagOf(NormRead(read2)) # BagOf(NormDoc(da)) THEN {"C08.bag.pass2"} ELSE {})
 =============================================================================
